@@ -197,7 +197,27 @@ def chk_builder(case):
     return []
 
 
-CASES = {"prog": chk_prog, "witness": chk_witness, "builder": chk_builder}
+def chk_bad(case):
+    """calls that must fail, and fail LATE (after the assembler / disassembler has already processed good items): no oracle of
+    their own beyond 'does not return a script', they leave whatever half-built state the implementation keeps"""
+    import bits.script.utils as su
+    good = filler(case["seed"], "c13-bad", 20).hex()
+    out = []
+    for args in ([good, "OP_DUP", "OP_NOTANOPCODE"], [good, good, "abc"], ["OP_DUP", "OP_HASH160", good, "zz"], [good] * 5 + [None]):
+        r = call(su.script, args)
+        if r[0] == "ok":
+            out.append(("C13/assemble/invalid-item-accepted", f"script({args!r}) returned {r[1]!r}"))
+    raw = bytes([20]) + bytes.fromhex(good) + b"\x76\x4c"            # a push, OP_DUP, then OP_PUSHDATA1 with no length byte
+    call(su.decode_script, raw)
+    call(su.decode_script, b"\x02" + b"\x03abc" + b"\xfd\xff", witness=True)   # 2 items announced, second cut inside its length
+    # the LAST library call of this operation fails (a later success could tidy up after the earlier failures)
+    r = call(su.script, [good, "xyz"], witness=bool(case.get("witness")))
+    if r[0] == "ok":
+        out.append(("C13/assemble/invalid-item-accepted", f"script([.., 'xyz']) returned {r[1]!r}"))
+    return out
+
+
+CASES = {"prog": chk_prog, "witness": chk_witness, "builder": chk_builder, "bad": chk_bad}
 
 
 def run_case(kind, case):
@@ -224,6 +244,8 @@ def seq_ops(job):
     ops.append(("builder", {"seed": seed, "builder": "p2sh_multisig_sig", "n": 71, "sigs": [71, 72]}))
     ops.append(("builder", {"seed": seed, "builder": "multisig_pubkey", "m": 2, "keys": [33, 65, 33]}))
     ops.append(("builder", {"seed": seed, "builder": "nulldata", "n": 80}))
+    ops.append(("bad", {"seed": seed}))
+    ops.append(("bad", {"seed": seed, "witness": True}))
     return ops
 
 
